@@ -4656,8 +4656,11 @@ class ExpPiecewiseConvex(PiecewiseConvex):
                 piece = piece.to_affine()
             if isinstance(piece, (RandVar, RandVarSub)):
                 piece = piece.rand_to_roaffine(model.vt_model)
-            if isinstance(piece, (DecAffine, DecRoAffine)):
-                piece.ctype = 'E'
+            if isinstance(piece, DecRoAffine):
+                piece = DecRoAffine(piece, piece.event_adapt, 'E')
+            elif isinstance(piece, DecAffine):
+                piece = DecAffine(piece.dro_model, piece, piece.event_adapt,
+                                  piece.fixed, 'E')
 
             expect_pieces.append(piece)
 
